@@ -13,6 +13,9 @@
 //                         enumerated / transformed / applied: Repetition::copy_from, a copy of a copy, each element
 //                         kind's copy_from (source cleared or destroyed before the copy is used, so that shared
 //                         storage is an ASan report), and the source is compared before / after.
+//  sub-check "via_reference"  the element's repetition carried through Reference::get_polygons / get_flexpaths /
+//                         get_robustpaths / get_labels(apply_repetitions=false): every instance (reference with 2, 3, 4
+//                         own offsets x 4 linear parts) must denote the set mapped ONCE by the linear part.
 //  sub-check "apply"      apply_repetition on polygon, 2-element flexpath (varying widths/offsets, raith
 //                         base-cell name), 2-element robustpath (segment + cubic, linear interpolations),
 //                         label, reference by cell pointer, reference by name - each carrying one GDSII
@@ -695,6 +698,104 @@ static void check_set(int ri) {
     check_set_via_element<RefOps<false>>(ri);
 }
 
+// ------------------------------------------------------------------------------------------ "via_reference"
+// A repetition carried by an element through Reference::get_polygons / get_flexpaths / get_robustpaths /
+// get_labels with apply_repetitions == false is transformed by the reference: every instance the reference
+// yields (one per offset of the reference's OWN repetition) must carry a repetition that denotes the image of
+// the original set under the linear part of the reference transform, applied exactly once.
+struct LinPart { double m; bool refl; double rot; const char* name; };
+static const LinPart LIN[] = {{1, false, 0.6, "rotation 0.6"}, {2, false, 0, "magnification 2"}, {1, true, 0, "x_reflection"}, {0.5, true, M_PI / 2, "magnification 0.5, x_reflection, rotation pi/2"}};
+static RepSpec ref_rep_spec(int k) {
+    RepSpec r;
+    if (k == 0) { r.kind = 3; r.offs.push_back(Vec2{10, 0}); }                                  // 2 offsets
+    if (k == 1) { r.kind = 2; r.cols = 3; r.rows = 1; r.v1 = Vec2{10, 5}; r.v2 = Vec2{0, 7}; }  // 3 offsets
+    if (k == 2) { r.kind = 1; r.cols = 2; r.rows = 2; r.sp = Vec2{10, 20}; }                    // 4 offsets
+    return r;
+}
+template <class Ops> struct Via;
+template <> struct Via<PolyOps> { static Array<Polygon*>& arr(Cell& c) { return c.polygon_array; } static void get(const Reference& r, Array<Polygon*>& o) { r.get_polygons(false, false, -1, false, 0, o); } static const char* fn() { return "Reference::get_polygons"; } };
+template <> struct Via<FlexOps> { static Array<FlexPath*>& arr(Cell& c) { return c.flexpath_array; } static void get(const Reference& r, Array<FlexPath*>& o) { r.get_flexpaths(false, -1, false, 0, o); } static const char* fn() { return "Reference::get_flexpaths"; } };
+template <> struct Via<RobustOps> { static Array<RobustPath*>& arr(Cell& c) { return c.robustpath_array; } static void get(const Reference& r, Array<RobustPath*>& o) { r.get_robustpaths(false, -1, false, 0, o); } static const char* fn() { return "Reference::get_robustpaths"; } };
+template <> struct Via<LabelOps> { static Array<Label*>& arr(Cell& c) { return c.label_array; } static void get(const Reference& r, Array<Label*>& o) { r.get_labels(false, -1, false, 0, o); } static const char* fn() { return "Reference::get_labels"; } };
+template <class Ops>
+static void via_reference_kind(int ri, int only_k, int only_l) {
+    typedef typename Ops::T T;
+    const RepSpec& s = ALPHA[ri];
+    SpecInfo inf = info_of(s);
+    std::vector<Vec2> own = own_set(s);
+    for (int k = 0; k < 3; k++)
+        for (int l = 0; l < 4; l++) {
+            if ((only_k >= 0 && k != only_k) || (only_l >= 0 && l != only_l)) continue;
+            const LinPart& L = LIN[l];
+            Cell cell;
+            memset(&cell, 0, sizeof cell);
+            cell.name = (char*)"c11cell";
+            T* el = Ops::build(0);
+            make_rep(s, Ops::rep(*el));
+            std::string el_before = dump::repetition(Ops::rep(*el));
+            Via<Ops>::arr(cell).append(el);
+            Reference ref;
+            memset(&ref, 0, sizeof ref);
+            ref.init(&cell);
+            ref.origin = Vec2{3, -2};
+            ref.magnification = L.m;
+            ref.x_reflection = L.refl;
+            ref.rotation = L.rot;
+            RepSpec rs = ref_rep_spec(k);
+            make_rep(rs, ref.repetition);
+            size_t nref = own_set(rs).size();
+            Array<T*> out = {};
+            Via<Ops>::get(ref, out);
+            R->count("cases");
+            R->count("via_reference_cases");
+            if (inf.card >= 2) R->count("nontrivial");
+            JFields tags = base_tags(s, inf);
+            tags.push_back({"element", jstr(Ops::name())});
+            tags.push_back({"reference_offsets", jint((int64_t)nref)});
+            tags.push_back({"linear_part", jstr(L.name)});
+            std::string cs = jobj({{"route", jstr(std::string(Via<Ops>::fn()) + "(apply_repetitions=false)")}, {"element", jstr(Ops::name())}, {"element_repetition", spec_json(s)}, {"denoted_set", vecs_json(own)},
+                                   {"reference", jobj({{"origin", jstr("(3,-2)")}, {"linear_part", jstr(L.name)}, {"repetition", spec_json(rs)}})}});
+            std::string rp = fmt("sub=via_reference rep=%d el=%s k=%d l=%d", ri, Ops::name(), k, l);
+            std::vector<Vec2> want;
+            long double c = cosl((long double)L.rot), sn = sinl((long double)L.rot), sg = L.refl ? -1 : 1;
+            double scale = 1;
+            for (auto& v : own) {
+                long double x = L.m * v.x, y = sg * L.m * v.y;
+                Vec2 w = {(double)(x * c - y * sn), (double)(x * sn + y * c)};
+                want.push_back(w);
+                scale = std::max(scale, std::max(fabs(w.x), fabs(w.y)));
+            }
+            if (VERBOSE) fprintf(stderr, "%s on %s with %s under a reference (%s, %zu offsets): %llu instances\n  expected set per instance %s\n", Via<Ops>::fn(), Ops::name(), spec_json(s).c_str(), L.name, nref, (unsigned long long)out.count, vecs_json(want).c_str());
+            if (out.count != nref) R->violation("via_reference", "instance-count", tags, cs, fmt("%llu instances returned, the reference has %zu offsets", (unsigned long long)out.count, nref), rp);
+            for (uint64_t i = 0; i < out.count; i++) {
+                Repetition& r = Ops::rep(*out[i]);
+                JFields t2 = tags;
+                t2.push_back({"instance", jint((int64_t)i)});
+                if (!storage_ok(r)) { storage_violation("via_reference", ri, Via<Ops>::fn(), r, rp); continue; }
+                std::vector<Vec2> got = dump::own_offsets(r);
+                if (r.type == RepetitionType::None) got.clear();
+                if (VERBOSE) fprintf(stderr, "  instance %llu carries %s\n", (unsigned long long)i, dump::repetition(r).c_str());
+                if (!same_multiset_tol(want, got, 1e-12 * scale))
+                    R->violation("via_reference", "instance-repetition", t2, cs, fmt("instance %llu of %llu carries a repetition denoting ", (unsigned long long)i, (unsigned long long)out.count) + vecs_json(got) + "; the element's set mapped once by the linear part of the reference is " + vecs_json(want), rp);
+                else if (s.kind != 0 && r.get_count() != own.size())
+                    R->violation("via_reference", "instance-count-of-repetition", t2, cs, fmt("get_count() of the instance's repetition = %llu, the element's repetition denotes %zu vectors", (unsigned long long)r.get_count(), own.size()), rp);
+            }
+            if (dump::repetition(Ops::rep(*el)) != el_before) R->violation("via_reference", "source-element-changed", tags, cs, "the repetition of the element inside the referenced cell changed: " + dump::repetition(Ops::rep(*el)), rp);
+            for (uint64_t i = 0; i < out.count; i++) Ops::destroy(out[i]);
+            out.clear();
+            ref.repetition.clear();
+            Via<Ops>::arr(cell).clear();
+            Ops::destroy(el);
+        }
+}
+static void check_via_reference(int ri, const std::string& only_el = "", int only_k = -1, int only_l = -1) {
+    auto want = [&](const char* n) { return only_el.empty() || only_el == n; };
+    if (want(PolyOps::name())) via_reference_kind<PolyOps>(ri, only_k, only_l);
+    if (want(FlexOps::name())) via_reference_kind<FlexOps>(ri, only_k, only_l);
+    if (want(RobustOps::name())) via_reference_kind<RobustOps>(ri, only_k, only_l);
+    if (want(LabelOps::name())) via_reference_kind<LabelOps>(ri, only_k, only_l);
+}
+
 static const char* COPIED_NAME[] = {"direct", "copy_from (source destroyed)", "copy of a copy (intermediate destroyed, source kept)"};
 // run f in a forked child; "" if it returned normally, else what happened (+ its stderr in err)
 static std::string isolated(const std::function<void()>& f, std::string& err) {
@@ -1034,7 +1135,8 @@ int main(int argc, char** argv) {
         if (sub == "set") check_set(ri);
         else if (sub == "transform") check_transform(ri, run.rarg("t").empty() ? -1 : atoi(run.rarg("t").c_str()), run.rarg("cp") == "1");
         else if (sub == "apply") apply_all(ri, run.rarg("el"), run.rarg("prefill").empty() ? -1 : atoi(run.rarg("prefill").c_str()), run.rarg("var").empty() ? -1 : atoi(run.rarg("var").c_str()), run.rarg("cp").empty() ? -1 : atoi(run.rarg("cp").c_str()));
-        else { check_set(ri); check_transform(ri, -1); check_transform(ri, -1, true); apply_all(ri, "", -1); }
+        else if (sub == "via_reference") check_via_reference(ri, run.rarg("el"), run.rarg("k").empty() ? -1 : atoi(run.rarg("k").c_str()), run.rarg("l").empty() ? -1 : atoi(run.rarg("l").c_str()));
+        else { check_set(ri); check_transform(ri, -1); check_transform(ri, -1, true); check_via_reference(ri); apply_all(ri, "", -1); }
         return run.finish();
     }
     run.note("alphabet: " + alphabet_desc(T) + fmt(" (%zu repetitions)", ALPHA.size()));
@@ -1050,6 +1152,7 @@ int main(int argc, char** argv) {
         check_set((int)i);
         check_transform((int)i, -1);
         check_transform((int)i, -1, true);
+        check_via_reference((int)i);
         apply_all((int)i, "", -1);
     };
     bool ok = parallel_for(run, n, body, [&](int64_t i) { return jobj({{"repetition", spec_json(ALPHA[i])}}); }, [&](int64_t i) { return fmt("sub=all rep=%lld", (long long)i); }, PFOptions{120, "enum", true});
@@ -1059,7 +1162,7 @@ int main(int argc, char** argv) {
     note_bezier_ctrl_sharing();
     run.bound("enum", "every repetition of the alphabet {" + alphabet_desc(T) + "} x {get_count, get_offsets, get_extrema (result empty / pre-filled)} judged on 9 derivations of the repetition (direct; Repetition::copy_from copy; copy of a copy; source after its copies were cleared; "
               "repetition of a polygon / flexpath / robustpath / label / reference copied with copy_from, source destroyed) x 18 transforms (direct and on a copy whose source was cleared) x apply_repetition on 6 element kinds: fresh and after every transform history of its "
-              "list (18 element states), fresh ones also with the result array already holding the element, and fresh ones copied first (copy_from with the source destroyed; copy of a copy with the source kept and compared)", ok,
-              n * (9 + 36 + (int64_t)APPLY.size() + 6));
+              "list (18 element states), fresh ones also with the result array already holding the element, and fresh ones copied first (copy_from with the source destroyed; copy of a copy with the source kept and compared); plus 'via_reference': the repetition of a polygon / flexpath / robustpath / label inside a cell, read back from every instance of Reference::get_polygons / get_flexpaths / get_robustpaths / get_labels(apply_repetitions=false) for references with 2, 3 and 4 own offsets x {rotation 0.6, magnification 2, x_reflection, all three}", ok,
+              n * (9 + 36 + 48 + (int64_t)APPLY.size() + 6));
     return run.finish();
 }
